@@ -2,7 +2,12 @@
 boundaries), with the default prior of taurex.optimizer.optimizer.compile_params, and of the text syntax
 (parse_priors / create_prior) with parsePrior / createPrior; plus the property's own predicates on the real code:
 monotone, end points, inverse-CDF identity, bounds order-free, log/lin equivalence, 10**x back-transform,
-text == direct construction, defaults from mode and bounds."""
+text == direct construction, defaults from mode and bounds.
+Object histories (TaurexModel/PriorObjects.lean, op c08.objects): every parse of a text builds a NEW object which only its own
+set_bounds calls change.  Input-file route (TaurexModel/FittingSection.lean + OptimizerSM.lean, op c08.file): [Fitting]
+section -> ParameterParser.setup_optimizer -> Optimizer.enable_fit -> compile_params; the prior a parameter is fitted with is
+the one the file writes for it as text, else the default of the mode and bounds the file gives it, whether the file or a
+later enable_fit switches the fit on."""
 import math
 import numpy as np
 from harness import common as C
@@ -14,8 +19,15 @@ RULE = ('constructor cases: Uniform/LogUniform(bounds | lin_bounds)/Gaussian/Log
         'fitparam(f, ...) (direct form, optional keywords left out) or add_fittable_param, 0-3 modify_bounds calls in / after '
         'the constructor / after the optimizer exists, default prior through Optimizer.compile_params or the module function; '
         'the documented grammar (three name casings, keyword subsets in random order, tuple/list, int/float/exponent/'
-        'signed literals, random blanks) plus the model\'s canonical print. distinct non-trivial = distinct '
-        '(constructor, bound order, magnitude class) resp. (class, keyword set, container, casing)')
+        'signed literals, random blanks) plus the model\'s canonical print; object histories: 1-3 prior texts parsed 3-8 '
+        'times in one session (create_prior directly / as X:prior lines of an input file read by the real ParameterParser, the '
+        'same text repeatedly) with Uniform.set_bounds on some of the objects in between, every object observed after every '
+        'step; input-file route: a real ForwardModel with 2-4 declared parameters, a [Fitting] section giving some of them '
+        'prior text / bounds / mode / factor with fit = True, False or no fit line, applied by the real setup_optimizer, compiled, '
+        'then the parameters the file left off enabled through Optimizer.enable_fit and compiled again, one compiled uniform '
+        'prior re-bounded in place and the same file read a second time. distinct non-trivial = distinct '
+        '(constructor, bound order, magnitude class) resp. (class, keyword set, container, casing) resp. (texts, repeats, '
+        'set_bounds, file) resp. (option set, parameters mentioned)')
 ASSUMPTIONS = ['scipy.stats.uniform.ppf(q, loc, scale) = q*scale + loc for 0 <= q <= 1, scale > 0 (validated each run)',
                'scipy.stats.norm.ppf(q, loc, scale) = ndtri(q)*scale + loc for scale > 0; ndtri is a monotone parameter '
                'of the model, supplied from scipy.special.ndtri (monotonicity validated on the u grid each run)',
@@ -874,6 +886,405 @@ def eval_declared(ctx, case):
                           dict(param=n, mode=mode_decl, bounds=b, got=type(prior).__name__ + ' ' + prior.params()))
 
 
+# ----------------------------------------------------------------------------- prior OBJECTS: texts parsed again, set_bounds
+def kwargs_of(call):
+    """keyword arguments of a generated call, numbers converted with float()"""
+    kw = {}
+    for key, cont, toks in call['args']:
+        vals = [float(t) for t in toks]
+        kw[key] = vals[0] if cont == 0 else (tuple(vals) if cont == 1 else list(vals))
+    return kw
+
+
+def klass_of(call):
+    import taurex.core.priors as TP
+    for kname in KINDS:
+        if call['fn'] in (kname, kname.lower(), kname.upper()):
+            return getattr(TP, kname)
+    return None
+
+
+def float_call(call):
+    return dict(fn=call['fn'], args=[(k, c, [float(t) for t in toks]) for k, c, toks in call['args']])
+
+
+def same_prior(a, b):
+    return all(a[k] == b[k] for k in ('kind', 'mode')) and all(C.close(a[k], b[k], rel=0.0) for k in ('lo', 'hi', 'samples', 'backs'))
+
+
+def gen_text_pool(rng, n, rebound_bias=True):
+    pool = []
+    for _ in range(n):
+        k = int(rng.choice([0, 1, 0, 1, 2, 3])) if rebound_bias else int(rng.integers(0, 4))
+        call = gen_call(rng, k)
+        call = dict(fn=call['fn'], args=[(a, b, list(c)) for a, b, c in call['args']])
+        pool.append(dict(call=call, text=render(rng, call).strip()))
+    return pool
+
+
+def quiet():
+    import logging
+    from taurex.log.logger import root_logger
+    root_logger.setLevel(logging.CRITICAL)
+
+
+def read_fitting_file(lines):
+    """write `[Fitting]` lines (key, text of the value) to an input file and read it with the real ParameterParser"""
+    import tempfile
+    import shutil
+    import os
+    from taurex.parameter import ParameterParser
+    quiet()
+    d = tempfile.mkdtemp(prefix='verif_c08_')
+    try:
+        fn = os.path.join(d, 'verif.par')
+        with open(fn, 'w') as fh:
+            fh.write('[Fitting]\n')
+            for k, v in lines:
+                fh.write('%s = %s\n' % (k, v))
+        pp = ParameterParser()
+        pp.read(fn)
+    finally:
+        shutil.rmtree(d, ignore_errors=True)
+    return pp
+
+
+def gen_objects(rng, k):
+    """a session's history with priors written as text: 1-3 distinct texts, parsed several times (create_prior directly, or
+    as `X:prior` lines of an input file read by the real ParameterParser), Uniform.set_bounds on objects in between"""
+    pool = gen_text_pool(rng, int(rng.integers(1, 4)))
+    ops, live = [], []          # live: text index of every object created so far
+
+    def reboundable(j):
+        return pool[live[j]]['call']['fn'].lower() in ('uniform', 'loguniform')
+    n = int(rng.integers(3, 9))
+    while len(ops) < n:
+        r = rng.random()
+        cand = [j for j in range(len(live)) if reboundable(j)]
+        if live and cand and r < 0.35:
+            j = int(rng.choice(cand))
+            b = gen_bounds(rng)
+            if max(abs(b[0]), abs(b[1])) > 1e100:
+                b = [float(rng.uniform(-9, 9)), float(rng.uniform(10, 99))]
+            ops.append(dict(op='set_bounds', obj=j, b=b))
+        elif r < 0.55 or k % 3 == 2:
+            ts = [int(rng.integers(0, len(pool))) for _ in range(int(rng.integers(1, 4)))]
+            if live and rng.random() < 0.6:
+                ts[0] = live[int(rng.integers(0, len(live)))]          # a text that was parsed before
+            ops.append(dict(op='file', ts=ts))
+            live += ts
+        else:
+            t = int(rng.integers(0, len(pool)))
+            if live and rng.random() < 0.6:
+                t = live[int(rng.integers(0, len(live)))]
+            ops.append(dict(op='create', t=t))
+            live.append(t)
+    return dict(type='objects', pool=pool, ops=ops)
+
+
+def eval_objects(ctx, case):
+    from taurex.parameter.factory import create_prior
+    pool = case['pool']
+    ops = case['ops']
+    us = [float(u) for u in case['us']]
+    xs = [float(x) for x in case['xs']]
+    zs = [ndtri(u) for u in us]
+    z10, z90 = z1090()
+    small = dict(case)
+    heap, texts, own = [], [], []          # the real objects; the text index and the last own set_bounds of each
+    mops, steps, snaps = [], [], []
+    try:
+        for op in ops:
+            if op['op'] == 'create':
+                heap.append(create_prior(pool[op['t']]['text']))
+                texts.append(op['t'])
+                own.append(None)
+                mops.append('0 ' + ' '.join(call_tokens(float_call(pool[op['t']]['call']), C.F)))
+            elif op['op'] == 'file':
+                names = ['p%d' % i for i in range(len(op['ts']))]
+                pp = read_fitting_file([('%s:prior' % n, '"%s"' % pool[t]['text']) for n, t in zip(names, op['ts'])])
+                fp = pp.generate_fitting_parameters()
+                for n, t in zip(names, op['ts']):
+                    heap.append(fp[n]['prior'])
+                    texts.append(t)
+                    own.append(None)
+                    mops.append('0 ' + ' '.join(call_tokens(float_call(pool[t]['call']), C.F)))
+            else:
+                heap[op['obj']].set_bounds(list(op['b']))
+                own[op['obj']] = list(op['b'])
+                mops.append('1 %s %s %s' % (C.N(op['obj']), C.F(op['b'][0]), C.F(op['b'][1])))
+            steps.append(len(mops) - 1)
+            snaps.append(([observe(p, us, xs) for p in heap], list(own)))
+    except Exception as e:      # noqa
+        ctx.violation('text-create-raises', 'create_prior / the [Fitting] reader / set_bounds raised %r on a prior string of the '
+                      'documented syntax' % (e,), small)
+        return
+    d = ctx.model().call('c08.objects', C.F(0.5), C.F(0.25), C.L(mops, lambda t: t), C.F(z10), C.F(z90), C.L(us), C.L(zs),
+                         C.L(xs))
+    trace = d.list(lambda: d.list(lambda: read_eval(d)))
+    repeated = len(set(texts)) < len(texts)
+    ctx.case(key=('objects', len(pool), repeated, any(o['op'] == 'set_bounds' for o in ops), any(o['op'] == 'file' for o in ops)),
+             bucket='objects:history', sample=dict(texts=[p['text'] for p in pool], ops=ops))
+    if repeated:
+        ctx.bucket('objects:same-text-parsed-again')
+    if any(o['op'] == 'set_bounds' for o in ops):
+        ctx.bucket('objects:set_bounds-on-a-text-prior')
+    if any(o['op'] == 'file' for o in ops):
+        ctx.bucket('objects:created-by-reading-a-file')
+    direct = {}
+    for si, (obs_, own_) in zip(steps, snaps):
+        mheap = trace[si] if si < len(trace) else []
+        ctx.check_eq('number of prior objects alive vs PriorObjects.run', len(obs_), len(mheap), dict(small, step=si))
+        for j, (impl, mod) in enumerate(zip(obs_, mheap)):
+            compare_eval(ctx, 'text prior object %d after the history' % j, impl, mod, dict(small, step=si))
+    # ---- property: every object is the prior ITS text describes (or, once re-bounded, the prior of ITS new bounds),
+    # whatever happened to other objects and however often the text was parsed
+    for step, (obs_, own_) in enumerate(snaps):
+        for j, impl in enumerate(obs_):
+            call = pool[texts[j]]['call']
+            cls = klass_of(call)
+            key = (texts[j], None if own_[j] is None else tuple(own_[j]))
+            if key not in direct:
+                direct[key] = observe(cls(**kwargs_of(call)) if own_[j] is None else cls(bounds=list(own_[j])), us, xs)
+            if not same_prior(impl, direct[key]):
+                shared = [i for i in range(len(heap)) if i != j and heap[i] is heap[j]]
+                ctx.violation('text-object:not-its-own-prior', 'a prior built from text is not the prior its text describes (as '
+                              'direct construction gives it) after the same text was parsed before / another prior object was '
+                              're-bounded with set_bounds', small,
+                              dict(after_op=step, object=j, text=pool[texts[j]]['text'], own_set_bounds=own_[j],
+                                   got=[impl['lo'], impl['hi'], impl['samples'][:3]],
+                                   want=[direct[key]['lo'], direct[key]['hi'], direct[key]['samples'][:3]],
+                                   same_python_object_as=shared))
+                return
+
+
+# ----------------------------------------------------------------------------- the input-file route
+def typed_tok(key, v):
+    """one [Fitting] entry as ParameterParser.transform typed it (wire format of FittingSection.OptVal)"""
+    k = C.S(key)
+    if isinstance(v, bool):
+        return '%s 0 %s' % (k, C.N(1 if v else 0))
+    if isinstance(v, float):
+        return '%s 1 %s' % (k, C.F(v))
+    if isinstance(v, str):
+        return '%s 2 %s' % (k, C.S(v))
+    if isinstance(v, list) and all(isinstance(x, float) for x in v):
+        return '%s 3 %s' % (k, C.L(v))
+    if isinstance(v, list) and all(isinstance(x, str) for x in v):
+        return '%s 4 %s' % (k, C.L(v, C.S))
+    raise C.InfraError('untyped section value %r' % (v,))
+
+
+def gen_file(rng, k):
+    """a real ForwardModel with 2-4 declared parameters and a [Fitting] section configuring some of them — prior text, bounds,
+    mode, factor — with `fit` True, False or left out; afterwards the parameters the file did not switch on are enabled
+    through Optimizer.enable_fit (a second retrieval from the same file)"""
+    npar = int(rng.integers(2, 5))
+    params = []
+    for i in range(npar):
+        mode = 'log' if rng.random() < 0.5 else 'linear'
+        if mode == 'log':
+            b = [float(10 ** rng.uniform(-8, 2)), float(10 ** rng.uniform(2.5, 9))]
+        else:
+            b = [float(rng.uniform(-50, 0)), float(rng.uniform(1, 60))]
+        if rng.random() < 0.3:
+            b = b[::-1]
+        params.append(dict(name='q%d' % i, route=ROUTES[(k + i) % 3], mode=mode, fit=bool(rng.random() < 0.3), bounds=b))
+    pool = gen_text_pool(rng, int(rng.integers(1, 3)), rebound_bias=False)
+    mentioned = [params[i]['name'] for i in rng.permutation(npar)[:int(rng.integers(1, npar + 1))]]
+    lines, opts = [], {}
+
+    def num(v):
+        return repr(float(v))
+    for n in mentioned:
+        p = [q for q in params if q['name'] == n][0]
+        o = {}
+        r = rng.random()
+        if r >= 0.35:
+            o['fit'] = str(rng.choice(['False', 'no', 'false'])) if r < 0.7 else str(rng.choice(['True', 'yes', 'true']))
+        if rng.random() < 0.5:
+            o['prior'] = int(rng.integers(0, len(pool)))
+        if rng.random() < 0.3:
+            o['mode'] = str(rng.choice(['linear', 'log', 'LOG', 'Linear']))
+        final_mode = (o.get('mode') or p['mode']).lower()
+        if rng.random() < 0.12:
+            o['factor'] = [float(rng.uniform(0.01, 0.9)), float(rng.uniform(1.1, 20))]
+        need_pos = final_mode == 'log' and 'factor' not in o and not (p['bounds'][0] > 0 and p['bounds'][1] > 0)
+        if rng.random() < 0.4 or need_pos:
+            if final_mode == 'log':
+                b = [float(10 ** rng.uniform(-6, 1)), float(10 ** rng.uniform(1.5, 7))]
+            else:
+                b = [float(rng.uniform(-30, 0)), float(rng.uniform(0.5, 40))]
+            o['bounds'] = b[::-1] if rng.random() < 0.3 else b
+        if not o:
+            o['fit'] = 'False'
+        opts[n] = o
+        for key, v in o.items():
+            if key == 'prior':
+                text = '"%s"' % pool[v]['text']
+            elif key in ('bounds', 'factor'):
+                text = '%s, %s' % (num(v[0]), num(v[1]))
+            else:
+                text = v
+            lines.append(('%s:%s' % (n, key), text))
+    lines = [lines[i] for i in rng.permutation(len(lines))]
+    later = [n for n in mentioned]
+    if rng.random() < 0.3:
+        later += [q['name'] for q in params if q['name'] not in mentioned][:1]
+    later = [later[i] for i in rng.permutation(len(later))]
+    return dict(type='file', host='model', params=params, hist=[], pool=pool, opts=opts, lines=lines, phases=[[], later])
+
+
+FILE_TRUE = ('true', 'yes', 'yeah', 'yup', 'certainly', 'uh-huh')
+
+
+def eval_file(ctx, case):
+    import traceback
+    from taurex.core.priors import Uniform, LogUniform
+    from taurex.optimizer.optimizer import Optimizer
+    params = [p for p in case['params'] if p['route'] != 'dynamic'] + [p for p in case['params'] if p['route'] == 'dynamic']
+    pool, opts = case['pool'], case['opts']
+    lines = [tuple(x) for x in case['lines']]
+    phases = [list(x) for x in case['phases']]
+    us = [float(u) for u in case['us']]
+    xs = [float(x) for x in case['xs']]
+    zs = [ndtri(u) for u in us]
+    z10, z90 = z1090()
+    small = dict(case)
+    decl = {p['name']: p for p in params}
+
+    def session():
+        """a fresh model + optimizer, the file read and applied by the real ParameterParser"""
+        host = _declared_host(case)()
+        opt = Optimizer('verif', observed=_decl_obs(), model=host)
+        pp = read_fitting_file(lines)
+        typed = list(pp._raw_config['Fitting'].items())
+        try:
+            pp.setup_optimizer(opt)
+            out = 0
+        except Exception as e:      # noqa
+            names = [f.name for f in traceback.extract_tb(e.__traceback__)]
+            out = 3 if 'create_prior' in names else (1 if isinstance(e, KeyError) else (2 if isinstance(e, ValueError) else 5))
+        return opt, typed, out
+
+    def compile_view(opt, names):
+        for n in names:
+            opt.enable_fit(n)
+        try:
+            opt.compile_params()
+        except ValueError:
+            return 2, [], [], []
+        pri = list(opt.fitting_priors)
+        return 0, [t[0] for t in opt.fitting_parameters], list(opt.fit_names), pri
+
+    try:
+        opt, typed, out = session()
+    except Exception as e:      # noqa
+        ctx.malformed_outcome('file:fixture:' + type(e).__name__)
+        return
+    # ---- the model: FittingSection.setupOptimizer, OptimizerSM.run of the enable_fit calls, compile
+    numbers = []
+    for key, v in typed:
+        if key.endswith(':prior') and isinstance(v, str) and v not in [t for t, _ in numbers]:
+            dp = ctx.model().call('c08.parse', C.S(v))
+            if dp.nat():
+                numbers.append((v, [float(t) for _, _, toks in read_call(dp)['args'] for t in toks]))
+    d = ctx.model().call('c08.file', C.F(z10), C.F(z90), C.F(0.5), C.F(0.25),
+                         C.L(params, lambda p: ' '.join([C.S(p['name']), C.N(0 if p['mode'] == 'linear' else 1),
+                                                         C.N(1 if p['fit'] else 0), C.F(p['bounds'][0]), C.F(p['bounds'][1]),
+                                                         C.F(1.5)])),
+                         C.L(typed, lambda kv: typed_tok(kv[0], kv[1])),
+                         C.L(numbers, lambda tn: C.S(tn[0]) + ' ' + C.L(tn[1])), C.L(phases, lambda en: C.L(en, C.S)),
+                         C.L(us), C.L(zs), C.L(xs))
+    mout = d.nat()
+    mph = d.list(lambda: (d.nat(), d.list(d.str), d.list(lambda: read_eval(d))))
+    ctx.check_eq('setup_optimizer outcome vs FittingSection.setupOptimizer', out, mout, small)
+    if out != 0 or mout != 0:
+        ctx.malformed_outcome('file:setup-outcome-%d' % out)
+        return
+    ctx.case(key=('file', tuple(sorted(set(k for o in opts.values() for k in o))), len(opts)), bucket='file:section',
+             sample=dict(lines=lines, phases=phases))
+    views = []
+    for pi, en in enumerate(phases):
+        try:
+            cout, pnames, fnames, pri = compile_view(opt, en)
+        except Exception as e:      # noqa
+            ctx.violation('file:compile-raises', 'enable_fit / compile_params after setup_optimizer raised %r' % (e,), small)
+            return
+        m_out, m_names, m_pri = mph[pi] if pi < len(mph) else (-1, [], [])
+        ctx.check_eq('compile_params outcome after the file (+ enable_fit) vs OptimizerSM.compile', cout, m_out,
+                     dict(small, phase=pi))
+        if cout != 0 or m_out != 0:
+            ctx.bucket('file:compile-ValueError(no default prior)')
+            return
+        ctx.check_eq('fit_names after the file (+ enable_fit) vs OptimizerSM.fitNames', fnames, m_names, dict(small, phase=pi))
+        impl = [observe(p, us, xs) for p in pri]
+        ctx.check_eq('number of compiled priors vs the model', len(impl), len(m_pri), dict(small, phase=pi))
+        for n, a, b in zip(pnames, impl, m_pri):
+            compare_eval(ctx, 'prior of %s after the file (+ enable_fit)' % n, a, b, dict(small, phase=pi))
+        views.append((pnames, pri, impl))
+        # ---- property: the prior of every fitted parameter is the one the file writes for it as text, else the default of
+        # the mode and bounds the file (else the declaration) gives it
+        enabled_later = set(x for ph in phases[:pi + 1] for x in ph)
+        for n, p, got in zip(pnames, pri, impl):
+            o = opts.get(n, {})
+            infile = 'fit' in o and o['fit'].lower() in FILE_TRUE
+            how = 'fit-in-file' if infile else ('enabled-later' if n in enabled_later else 'fit-by-declaration')
+            if 'prior' in o:
+                call = pool[o['prior']]['call']
+                want = observe(klass_of(call)(**kwargs_of(call)), us, xs)
+                ctx.bucket('file:param:%s:text-prior' % how)
+                if type(p) is not klass_of(call) or not same_prior(got, want):
+                    ctx.violation('file-prior:text:' + how, 'the prior written as text for a parameter in the input file is not the '
+                                  'prior that parameter is fitted with', small,
+                                  dict(phase=pi, param=n, text=pool[o['prior']]['text'], got=type(p).__name__ + ' ' + p.params()))
+                    return
+                continue
+            mode = (o.get('mode') or decl[n]['mode']).lower()
+            b = list(decl[n]['bounds'])
+            if o.get('factor'):
+                b = [o['factor'][0] * 1.5, o['factor'][1] * 1.5]
+            if o.get('bounds'):
+                b = list(o['bounds'])
+            ctx.bucket('file:param:%s:default%s' % (how, ':from-the-file' if (o.get('bounds') or o.get('mode') or o.get('factor'))
+                                                   else ''))
+            want = observe(LogUniform(lin_bounds=b) if mode == 'log' else Uniform(bounds=b), us, xs)
+            ok = all(got[k_] == want[k_] for k_ in ('kind', 'mode')) and all(
+                C.close(got[k_], want[k_], rel=1e-13, abs_=1e-300) for k_ in ('lo', 'hi', 'samples', 'backs'))
+            if not ok:
+                ctx.violation('file-prior:default:' + how, 'the default prior of a fitted parameter does not derive from the mode and '
+                              'bounds the input file gives it', small,
+                              dict(phase=pi, param=n, mode=mode, bounds=b, got=type(p).__name__ + ' ' + p.params()))
+                return
+    # ---- history: one of the compiled uniform priors re-bounded in place, then the SAME file read again for a second
+    # retrieval: every prior is again the one the file describes
+    pnames, pri, impl = views[-1]
+    cand = [i for i, p in enumerate(pri) if type(p) in (Uniform, LogUniform)]
+    if cand:
+        i = cand[0]
+        lo, hi = pri[i].boundaries()
+        pri[i].set_bounds([lo + 0.25 * (hi - lo), hi - 0.25 * (hi - lo)])
+        ctx.bucket('file:history:set_bounds-then-second-read')
+        for j, (n, p) in enumerate(zip(pnames, pri)):
+            if j != i and not same_prior(observe(p, us, xs), impl[j]):
+                ctx.violation('file-prior:changed-by-another', 're-bounding the prior of one parameter changed the prior of another '
+                              'parameter of the same file', small, dict(rebounded=pnames[i], changed=n))
+                return
+    try:
+        opt2, _, out2 = session()
+        cout2, pnames2, _, pri2 = compile_view(opt2, [x for ph in phases for x in ph])
+    except Exception as e:      # noqa
+        ctx.violation('file:second-read-raises', 'a second read of the same file raised %r' % (e,), small)
+        return
+    ctx.bucket('file:second-read')
+    impl2 = [observe(p, us, xs) for p in pri2]
+    if (out2, cout2, pnames2) != (0, 0, pnames) or not all(same_prior(a, b) for a, b in zip(impl2, impl)):
+        bad = [n for n, a, b in zip(pnames2, impl2, impl) if not same_prior(a, b)]
+        ctx.violation('file-prior:second-read', 'a second read of the same input file (fresh model and optimizer) does not give the '
+                      'priors the file describes', small, dict(params=bad, outcome=[out2, cout2]))
+
+
+
 # ----------------------------------------------------------------------------- externals
 def validate_externals(ctx):
     import scipy.stats as st
@@ -1066,6 +1477,14 @@ def run(ctx):
     for k in range(ctx.n(360, 5000)):
         case = gen_declared(rng, k)
         eval_declared(ctx, dict(case, us=gen_us(rng, 2), xs=[float(x) for x in rng.uniform(-20, 20, size=2)]))
+    # prior OBJECTS: the same text parsed again (factory / input file), set_bounds on objects in between
+    for k in range(ctx.n(160, 2400)):
+        case = gen_objects(rng, k)
+        eval_objects(ctx, dict(case, us=gen_us(rng, 1), xs=[float(rng.uniform(-20, 20))]))
+    # the input-file route: [Fitting] section -> setup_optimizer -> (enable_fit) -> compile_params, second read
+    for k in range(ctx.n(200, 3000)):
+        case = gen_file(rng, k)
+        eval_file(ctx, dict(case, us=gen_us(rng, 1), xs=[float(rng.uniform(-20, 20))]))
     malformed(ctx)
     late_plugin_priors(ctx)
 
@@ -1082,7 +1501,11 @@ def replay(ctx, case):
         except Exception:
             pass
         return
-    if case.get('type') == 'declared':
+    if case.get('type') == 'objects':
+        eval_objects(ctx, case)
+    elif case.get('type') == 'file':
+        eval_file(ctx, case)
+    elif case.get('type') == 'declared':
         eval_declared(ctx, case)
     elif case.get('type') == 'text':
         eval_text(ctx, case)
